@@ -87,7 +87,6 @@ class WeightBasedSQuad(BaseSQuad):
         # x: (nx,)
         xshape = x.shape
         nx = xshape[-1]
-        x = x.reshape(-1, nx)
         self.w = self.get_weights(x, **options)  # (*, nx, nx)
 
     @abstractmethod
